@@ -18,7 +18,7 @@ distribution = queues.distribution
 
 
 def gen(rng, tier):
-    n = {"quick": 120, "thorough": 1500, "search": 600}[tier]
+    n = {"quick": 120, "thorough": 1500, "search": 150}[tier]
     cases = []
     for i in range(n):
         if i % 2 == 0:
